@@ -38,7 +38,7 @@ def write_evidence(mod, pid, tier, seed, *, cases, keys, counters, features, anc
         "wall_s": round(float(wall), 2),
         "violations": int(len(unknown)),
     }
-    out = os.path.join(env.VERIF_DIR, "evidence", f"{pid}.json")
+    out = os.path.join(os.environ.get("VERIF_EVIDENCE_DIR") or os.path.join(env.VERIF_DIR, "evidence"), f"{pid}.json")
     os.makedirs(os.path.dirname(out), exist_ok=True)
     with open(out, "w") as fh:
         json.dump(doc, fh, indent=1, default=str)
